@@ -17,6 +17,8 @@ def run_rel(prop, tier, seed, flavour="plain", extra_args=()):
     res = core.run_sharded([{"name": "rel", "binary": paths["rel"], "nshards": core.NCPU, "out": od,
                              "args": ["--seed", str(seed), "--tier", tier, "--prop", prop] + list(extra_args)
                                      + core.deep(tier, **{"C03": dict(rescalings=262144), "C04": dict(operands=600000, histories=150000),
-                                                          "C05": dict(inputs=160000, operands=160000)}.get(prop, {})),
+                                                          "C05": dict(inputs=160000, operands=160000)}.get(prop, {}))
+                                     + core.boost(tier, flavour, **{"C03": dict(rescalings=1024), "C04": dict(operands=16000, histories=3000),
+                                                                    "C05": dict(inputs=8000, operands=8000)}.get(prop, {})),
                              "env": core.SAN_ENV if flavour == "san" else None}], timeout=3600)
     return res
